@@ -1,0 +1,293 @@
+//go:build verif
+// +build verif
+
+package raft
+
+// Verification hook API for replication.go (build tag verif): a replication object
+// built exactly as leader.addReplication builds it, whose step functions
+// (writeAppendEntriesReq, onAppendEntriesResp, sendInstallSnapReq, onLeaderUpdate) are
+// called synchronously by the harness over an in-memory connection. The harness plays
+// the control flow of replicate()/runLoop and the follower. It adds no behaviour.
+
+import (
+	"bufio"
+	"bytes"
+	"encoding/json"
+	"io"
+	"time"
+
+	"github.com/santhosh-tekuri/raft/log"
+)
+
+type verifPipeConn struct {
+	verifConn
+	out *bytes.Buffer
+	in  *bytes.Buffer
+}
+
+func (c *verifPipeConn) Read(b []byte) (int, error) {
+	if c.in.Len() == 0 {
+		return 0, io.EOF
+	}
+	return c.in.Read(b)
+}
+func (c *verifPipeConn) Write(b []byte) (int, error) { return c.out.Write(b) }
+
+// VerifRepl is a replication under harness control.
+type VerifRepl struct {
+	n    *VerifNode
+	r    *replication
+	req  *appendReq
+	pc   *verifPipeConn
+	c    *conn
+	upCh chan replUpdate
+}
+
+// VReplState is the observable state of a replication (Lean: Raft.Repl.State).
+type VReplState struct {
+	MatchIndex   uint64 `json:"matchIndex"`
+	NextIndex    uint64 `json:"nextIndex"`
+	LdrLastIndex uint64 `json:"ldrLastIndex"`
+	ViewPrev     uint64 `json:"viewPrev"`
+	ViewLast     uint64 `json:"viewLast"`
+	LdrCommit    uint64 `json:"ldrCommit"`
+	Term         uint64 `json:"term"`
+	Src          uint64 `json:"src"`
+	Voter        bool   `json:"voter"`
+}
+
+// VReplNote is a notification the replication sent to the leader.
+type VReplNote struct {
+	Kind string `json:"kind"`
+	Val  uint64 `json:"val"`
+}
+
+// NewRepl creates a replication for follower node as leader.addReplication does (without its goroutine).
+func (n *VerifNode) NewRepl(node VCNode) *VerifRepl {
+	l := n.l
+	nd := Node{ID: node.ID, Addr: node.Addr, Voter: node.Voter, Data: node.Data, Action: Action(node.Action)}
+	up := make(chan replUpdate, 1024)
+	repl := &replication{
+		node:           nd,
+		rtime:          newRandTime(),
+		status:         replicationStatus{id: nd.ID, node: nd, removeLTE: l.removeLTE},
+		ldrStartIndex:  l.startIndex,
+		ldrLastIndex:   l.lastLogIndex,
+		matchIndex:     0,
+		nextIndex:      l.lastLogIndex + 1,
+		connPool:       l.getConnPool(nd.ID),
+		hbTimeout:      l.hbTimeout,
+		timer:          newSafeTimer(),
+		bandwidth:      l.bandwidth,
+		log:            l.storage.log.ViewAt(l.removeLTE, l.lastLogIndex),
+		snaps:          l.storage.snaps,
+		stopCh:         make(chan struct{}),
+		replUpdateCh:   up,
+		leaderUpdateCh: make(chan leaderUpdate, 1),
+	}
+	req := &appendReq{
+		req:            req{l.term, l.nid},
+		ldrCommitIndex: l.commitIndex,
+		prevLogIndex:   l.lastLogIndex,
+		prevLogTerm:    l.lastLogTerm,
+	}
+	pc := &verifPipeConn{out: new(bytes.Buffer), in: new(bytes.Buffer)}
+	c := &conn{rwc: pc, bufr: bufio.NewReader(pc), bufw: bufio.NewWriter(pc)}
+	return &VerifRepl{n: n, r: repl, req: req, pc: pc, c: c, upCh: up}
+}
+
+// State returns the replication's state.
+func (v *VerifRepl) State() VReplState {
+	r := v.r
+	st := VReplState{MatchIndex: r.matchIndex, NextIndex: r.nextIndex, LdrLastIndex: r.ldrLastIndex,
+		LdrCommit: v.req.ldrCommitIndex, Term: v.req.term, Src: v.req.src, Voter: r.node.Voter}
+	if r.log != nil {
+		st.ViewPrev, st.ViewLast = r.log.PrevIndex(), r.log.LastIndex()
+	}
+	return st
+}
+
+func (v *VerifRepl) notes() []VReplNote {
+	out := []VReplNote{}
+	for {
+		select {
+		case u := <-v.upCh:
+			switch x := u.update.(type) {
+			case matchIndex:
+				out = append(out, VReplNote{"matchIndex", x.val})
+			case newTerm:
+				out = append(out, VReplNote{"newTerm", x.val})
+			case removeLTE:
+				out = append(out, VReplNote{"removeLTE", x.val})
+			case noContact:
+				out = append(out, VReplNote{"noContact", 0})
+			default:
+				out = append(out, VReplNote{"other", 0})
+			}
+			continue
+		default:
+		}
+		return out
+	}
+}
+
+func verifErrClass(err error) string {
+	switch {
+	case err == nil:
+		return ""
+	case err == log.ErrNotFound:
+		return "notFound"
+	case err == errStop:
+		return "stop"
+	case err == ErrFaultyFollower:
+		return "faultyFollower"
+	}
+	if _, ok := err.(remoteError); ok {
+		return "remote"
+	}
+	if _, ok := err.(OpError); ok {
+		return "opError"
+	}
+	return "error"
+}
+
+// VReplOut is what one step produced.
+type VReplOut struct {
+	Err     string       `json:"err"`
+	Append  *VAppendReq  `json:"append,omitempty"`
+	Install *VInstallReq `json:"install,omitempty"`
+	Notes   []VReplNote  `json:"notes"`
+	Panic   string       `json:"panic"`
+}
+
+func (v *VerifRepl) guard(out *VReplOut, fn func()) {
+	defer func() {
+		if p := recover(); p != nil {
+			out.Panic = verifPanicClass(p)
+		}
+	}()
+	fn()
+}
+
+// WriteAppend calls writeAppendEntriesReq and decodes what it wrote.
+func (v *VerifRepl) WriteAppend(sendEntries bool) VReplOut {
+	out := VReplOut{Notes: []VReplNote{}}
+	v.pc.out.Reset()
+	v.guard(&out, func() {
+		err := v.r.writeAppendEntriesReq(v.c, v.req, sendEntries)
+		out.Err = verifErrClass(err)
+		if err != nil {
+			return
+		}
+		rd := bufio.NewReader(bytes.NewReader(v.pc.out.Bytes()))
+		typ, _ := rd.ReadByte()
+		if rpcType(typ) != rpcAppendEntries {
+			out.Err = "wrongType"
+			return
+		}
+		q := &appendReq{}
+		if err := q.decode(rd); err != nil {
+			out.Err = "decode"
+			return
+		}
+		va := &VAppendReq{Term: q.term, Src: q.src, PrevLogIndex: q.prevLogIndex, PrevLogTerm: q.prevLogTerm,
+			LdrCommitIndex: q.ldrCommitIndex, Entries: []VEntry{}}
+		for i := uint64(0); i < q.numEntries; i++ {
+			e := &entry{}
+			if err := e.decode(rd); err != nil {
+				out.Err = "decodeEntry"
+				return
+			}
+			va.Entries = append(va.Entries, ventry(e))
+		}
+		if rd.Buffered() > 0 {
+			out.Err = "trailingBytes"
+		}
+		out.Append = va
+	})
+	out.Notes = v.notes()
+	return out
+}
+
+// OnAppendResp calls onAppendEntriesResp.
+func (v *VerifRepl) OnAppendResp(term, result, lastLogIndex, reqLastIndex uint64) VReplOut {
+	out := VReplOut{Notes: []VReplNote{}}
+	v.guard(&out, func() {
+		resp := &appendResp{resp{term, rpcResult(result), nil}, lastLogIndex}
+		if rpcResult(result) == unexpectedErr {
+			resp.err = errVerifDial
+		}
+		out.Err = verifErrClass(v.r.onAppendEntriesResp(resp, reqLastIndex))
+	})
+	out.Notes = v.notes()
+	return out
+}
+
+// InstallSnap calls sendInstallSnapReq with the follower's response preloaded.
+func (v *VerifRepl) InstallSnap(term, result uint64) VReplOut {
+	out := VReplOut{Notes: []VReplNote{}}
+	v.pc.out.Reset()
+	v.pc.in.Reset()
+	rb := new(bytes.Buffer)
+	resp := &installSnapResp{resp{term, rpcResult(result), nil}}
+	if rpcResult(result) == unexpectedErr {
+		resp.err = errVerifDial
+	}
+	_ = resp.encode(rb)
+	v.pc.in.Write(rb.Bytes())
+	v.c.bufr.Reset(v.pc)
+	v.guard(&out, func() {
+		// the wait loop for the leader update is played by the harness: make sure it is not entered
+		err := v.r.sendInstallSnapReq(v.c, v.req)
+		out.Err = verifErrClass(err)
+		rd := bufio.NewReader(bytes.NewReader(v.pc.out.Bytes()))
+		typ, e := rd.ReadByte()
+		if e != nil || rpcType(typ) != rpcInstallSnap {
+			return
+		}
+		q := &installSnapReq{}
+		if err := q.decode(rd); err != nil {
+			return
+		}
+		data, _ := io.ReadAll(rd)
+		vi := &VInstallReq{Term: q.term, Src: q.src, LastIndex: q.lastIndex, LastTerm: q.lastTerm, LastConfig: VerifConfig(q.lastConfig), Data: []string{}}
+		if int64(len(data)) != q.size {
+			out.Err = "sizeMismatch"
+		}
+		var applied []string
+		if jerr := json.Unmarshal(data, &applied); jerr == nil && applied != nil {
+			vi.Data = applied
+		}
+		out.Install = vi
+	})
+	out.Notes = v.notes()
+	return out
+}
+
+// LeaderUpdate delivers the leaderUpdate the leader would send now (notifyFlr).
+func (v *VerifRepl) LeaderUpdate(withConfig bool) VReplOut {
+	out := VReplOut{Notes: []VReplNote{}}
+	l := v.n.l
+	v.guard(&out, func() {
+		u := leaderUpdate{log: l.log.ViewAt(l.removeLTE, l.lastLogIndex), commitIndex: l.commitIndex}
+		if withConfig {
+			u.config = &l.configs.Latest
+		}
+		if u.log == nil {
+			out.Err = "nilView"
+			return
+		}
+		v.r.onLeaderUpdate(u, v.req)
+	})
+	out.Notes = v.notes()
+	return out
+}
+
+// SnapIndexWaitNeeded tells whether sendInstallSnapReq would block waiting for a leader update
+// (snapshot index beyond ldrLastIndex): the harness must deliver LeaderUpdate first.
+func (v *VerifRepl) SnapIndexWaitNeeded() bool {
+	idx, _ := v.r.snaps.latest()
+	return idx > v.r.ldrLastIndex
+}
+
+var _ = time.Now
